@@ -214,9 +214,24 @@ pub fn check_aspect_w(ctx: &Ctx, cfg: &Cfg, b: &Built, aspect: &str, hay: &[u8],
         "iter" => {
             let want = w.iter.get_or_insert_with(|| oracle::iter(pats, ci, kind, hay, s, e, anch)).clone();
             let got = guard(|| b.try_find_iter(hay, s, e, anch));
-            let ok = matches!(&got, Ok(Ok(g)) if *g == want);
+            let mut ok = matches!(&got, Ok(Ok(g)) if *g == want);
             if !ok {
                 report_fail(ctx, cfg, aspect, hay, s, e, anch, &want, &format!("{:?}", got));
+            }
+            // the front-end iterator drained by count() after one call of next()
+            if ok && s <= e && !want.is_empty() {
+                if let Some(t) = b.top() {
+                    let got = guard(|| {
+                        let inp = aho_corasick::Input::new(hay).span(s..e).anchored(if anch { aho_corasick::Anchored::Yes } else { aho_corasick::Anchored::No });
+                        let mut it = t.try_find_iter(inp).map_err(|e| e.to_string())?;
+                        it.next();
+                        Ok::<usize, String>(it.count())
+                    });
+                    if !matches!(&got, Ok(Ok(n)) if *n == want.len() - 1) {
+                        ok = false;
+                        report_fail(ctx, cfg, aspect, hay, s, e, anch, &format!("{} matches left after next()", want.len() - 1), &format!("count() = {:?}", got));
+                    }
+                }
             }
             ok
         }
@@ -233,6 +248,36 @@ pub fn check_aspect_w(ctx: &Ctx, cfg: &Cfg, b: &Built, aspect: &str, hay: &[u8],
                 ok = matches!(&got, Ok(Ok(g)) if *g == want);
                 if !ok {
                     report_fail(ctx, cfg, "ov", hay, s, e, anch, &want, &format!("iterator: {:?}", got));
+                }
+            }
+            // the front-end iterator drained by other Iterator methods after k calls of next()
+            if ok && !anch && s <= e {
+                if let Some(t) = b.top() {
+                    for k in [1usize, 2] {
+                        if k > want.len() {
+                            break;
+                        }
+                        let got = guard(|| {
+                            let mut it = t.try_find_overlapping_iter(aho_corasick::Input::new(hay).span(s..e)).map_err(|e| e.to_string())?;
+                            for _ in 0..k {
+                                it.next();
+                            }
+                            Ok::<usize, String>(it.count())
+                        });
+                        if !matches!(&got, Ok(Ok(n)) if *n == want.len() - k) {
+                            ok = false;
+                            report_fail(ctx, cfg, "ov", hay, s, e, anch, &format!("{} matches left after {} calls of next()", want.len() - k, k), &format!("count() = {:?}", got));
+                        }
+                        let got = guard(|| {
+                            let mut it = t.try_find_overlapping_iter(aho_corasick::Input::new(hay).span(s..e)).map_err(|e| e.to_string())?;
+                            it.next();
+                            Ok::<Option<M>, String>(it.last().map(crate::eng::cv))
+                        });
+                        if want.len() >= 2 && !matches!(&got, Ok(Ok(l)) if *l == want.last().cloned()) {
+                            ok = false;
+                            report_fail(ctx, cfg, "ov", hay, s, e, anch, &format!("last() = {:?}", want.last()), &format!("{:?}", got));
+                        }
+                    }
                 }
             }
             ok
@@ -563,6 +608,15 @@ pub fn family(name: &str, thorough: bool, seed: usize) -> Family {
                     l.insert(0, x);
                 }
                 lists.push(l);
+            }
+            // single-pattern lists (the substring-search prefilter has its own builder): only
+            // uppercase letters, only lowercase, mixed, letters next to digits / punctuation / >= 0x80
+            for one in [&b"FOO"[..], b"foo", b"fOo", b"HTTP/1.1", b"http/1.1", b"A1", b"a1", b"1A", b"Z", b"z", b"@[`{", b"K\xC3\x84K", b"\xFFX\xFF", b"QQQQQQQQQQQQQQQQQ", b"Ab#Cd$Ef%Gh&Ij*Kl(Mn)Op"] {
+                lists.push(vec![one.to_vec()]);
+            }
+            for _ in 0..(if thorough { 200 } else { 24 }) {
+                let n = 1 + rng.below(9);
+                lists.push(vec![rng.bytes(b"ABKMSZ19#", n)]);
             }
             Family { name: name.into(), lists, hays: vec![b"".to_vec(), b"needle".to_vec()] }
         }
